@@ -298,6 +298,108 @@ fn run_case(t: &mut Tally, b: &Base, kname: &str, k: &[i64], tag: &str) {
     }
 }
 
+const P30: u64 = 1073754113; // the 30-bit prime of the multi-modular reduction
+
+fn powmod(mut b: u64, mut e: u64) -> u64 {
+    let mut acc = 1u64;
+    b %= P30;
+    while e > 0 {
+        if e & 1 == 1 {
+            acc = acc * b % P30;
+        }
+        b = b * b % P30;
+        e >>= 1;
+    }
+    acc
+}
+
+fn to_res(x: i64) -> u32 {
+    x.rem_euclid(P30 as i64) as u32
+}
+
+/// The 30-bit NTT as babai_reduce_i32 uses it, checked as a component: slot roots, transforms of scaled
+/// basis vectors (including small negatives, which are residues next to the modulus), round trips, and the
+/// products x^j * f for every j (what one reduction step computes for a monomial multiplier).
+fn u32_ntt_component(n: usize) -> (u64, Vec<Found>) {
+    use falcon_rust::verif_hooks as fh;
+    let mut out: Vec<Found> = vec![];
+    let mut cases = 0u64;
+    let mut push = |out: &mut Vec<Found>, class: &str, what: String| {
+        if out.len() < 4 {
+            out.push(found(format!("u32-ntt:n={}:{}", n, class), what, json!({"kind":"u32ntt","n":n})));
+        }
+    };
+    let mut x = vec![0u32; n];
+    x[1 % n] = 1;
+    let roots: Vec<u64> = match catch(|| fh::u32field_fft(&x)) {
+        Ok(r) => r.iter().map(|&v| v as u64).collect(),
+        Err(e) => {
+            push(&mut out, "panic", format!("n={}: the 30-bit NTT panicked on X: {}", n, e));
+            return (1, out);
+        }
+    };
+    let mut seen = std::collections::BTreeSet::new();
+    for &w in &roots {
+        cases += 1;
+        if w >= P30 || powmod(w, n as u64) != P30 - 1 || !seen.insert(w) {
+            push(&mut out, "roots", format!("n={}: ntt(X) does not list n distinct roots of X^n+1 modulo the 30-bit prime", n));
+            break;
+        }
+    }
+    let consts: [i64; 7] = [1, -1, -2, 2, 1 << 20, -(1 << 20), (1 << 28) - 3];
+    for j in 0..n {
+        for &c in &consts {
+            if n > 128 && (c == 2 || c == (1 << 20)) {
+                continue;
+            }
+            cases += 1;
+            let mut v = vec![0u32; n];
+            v[j] = to_res(c);
+            let f = match catch(|| fh::u32field_fft(&v)) {
+                Ok(f) => f,
+                Err(e) => {
+                    push(&mut out, "panic", format!("n={}: ntt({} x^{}) panicked: {}", n, c, j, e));
+                    continue;
+                }
+            };
+            let cres = to_res(c) as u64;
+            let step = if n > 256 { 7 } else { 1 };
+            if (0..n).step_by(step).any(|k| f[k] as u64 != cres * powmod(roots[k], j as u64) % P30) {
+                push(&mut out, "forward", format!("n={}: ntt({} x^{}) differs from c * w_k^j", n, c, j));
+            }
+            match catch(|| fh::u32field_ifft(&f)) {
+                Ok(back) if back == v => {}
+                Ok(_) => push(&mut out, "roundtrip", format!("n={}: intt(ntt({} x^{})) is not {} x^{} (30-bit NTT)", n, c, j, c, j)),
+                Err(e) => push(&mut out, "panic", format!("n={}: intt panicked on ntt({} x^{}): {}", n, c, j, e)),
+            }
+        }
+    }
+    // products (+-x^j) * f for small dense f: one reduction step with a monomial multiplier
+    for t in 0..2i64 {
+        let f: Vec<i64> = (0..n as i64).map(|i| ((i * 5 + 3 * t + 1) % 9) - 4 + if i % 17 == 0 { 0 } else { 0 }).collect();
+        let fr: Vec<u32> = f.iter().map(|&v| to_res(v)).collect();
+        let ff = match catch(|| fh::u32field_fft(&fr)) {
+            Ok(v) => v,
+            Err(_) => continue,
+        };
+        for j in 0..n {
+            for sgn in [1i64, -1] {
+                cases += 1;
+                let mut k = vec![0u32; n];
+                k[j] = to_res(sgn);
+                let want: Vec<u32> = poly::shift_z(&f, j).iter().map(|&v| to_res(sgn * v)).collect();
+                let got = catch(|| fh::u32field_ifft(&fh::u32field_hadamard_mul(&fh::u32field_fft(&k), &ff)));
+                match got {
+                    Ok(g) if g == want => {}
+                    Ok(_) => push(&mut out, "product", format!("n={}: intt(ntt({} x^{}) .* ntt(f)) is not {} x^{} * f for a small dense f (30-bit NTT)", n, sgn, j, sgn, j)),
+                    Err(e) => push(&mut out, "panic", format!("n={}: 30-bit NTT product panicked at x^{}: {}", n, j, e)),
+                }
+            }
+        }
+    }
+    (cases, out)
+}
+
 pub fn run(tier: Tier) {
     let mut ctx = Ctx::new("C17", tier);
     let ns: Vec<usize> = crate::util::sizes(2);
@@ -390,12 +492,29 @@ pub fn run(tier: Tier) {
         ctx.violation(f.key, f.what, f.case);
     }
     ctx.add_part(part);
+    let comp: Vec<(usize, (u64, Vec<Found>))> = ns.par_iter().map(|&n| (n, u32_ntt_component(n))).collect();
+    let mut part = Part::new("u32_ntt_component", "the 30-bit NTT used by the multi-modular reduction, every n in {2,...,1024}: ntt(X) lists n distinct roots of X^n+1 mod p; ntt(c x^j) = c w_k^j and intt(ntt(c x^j)) = c x^j for all j and c in {+-1, +-2, +-2^20, 2^28-3} (negative c are residues next to the modulus); intt(ntt(+-x^j) .* ntt(f)) = +-x^j f for every j and two small dense f (one reduction step with a monomial multiplier)");
+    for (n, (c, f)) in comp {
+        part.states += c;
+        part.transitions += 3 * c;
+        part.validated += c;
+        part.outcome(format!("n={} cases={}", n, c));
+        for x in f {
+            ctx.violation(x.key, x.what, x.case);
+        }
+    }
+    part.exhaustive = true;
+    ctx.add_part(part);
     ctx.sample(json!({"n":4,"k":"2^12*X^1","meaning":"(F,G) = (F0,G0) + 4096 X (f,g) must reduce back to the same pair as (F0,G0) does"}));
     ctx.assume("at n = 2 ntru_gen does not produce an NTRU quadruple (30-bit field overflow, not a production size); quadruples failing the exact NTRU check are dropped and the structured bases cover that n");
     ctx.finish();
 }
 
 pub fn replay(case: &Value) -> Result<Option<String>, String> {
+    if case.get("kind").and_then(|k| k.as_str()) == Some("u32ntt") {
+        let n = case.get("n").and_then(|x| x.as_u64()).ok_or("n")? as usize;
+        return Ok(u32_ntt_component(n).1.into_iter().next().map(|f| f.what));
+    }
     let v = |k: &str| -> Result<V, String> { Ok(case.get(k).and_then(|x| x.as_array()).ok_or(format!("missing {}", k))?.iter().map(|x| x.as_i64().unwrap_or(0)).collect()) };
     let b = Base { f: v("f")?, g: v("g")?, cf: vec![], cg: vec![], origin: "replay".into() };
     Ok(judge(&b, &v("F")?, &v("G")?, true).err().map(|e| e.1))
